@@ -10,7 +10,7 @@ func init() {
 	register("C12", PropertyMeta{
 		Technique: "decision-table extraction over orderings for the tick dedup guard + who-may-call audit of tick event construction + divisibility abstract interpretation of the clock-edge functions",
 		Explanation: "Decides on modeling/ticker.go: TickNow/TickLater skip iff a tick is pending at a time >= the requested one, otherwise store the guard (pending=true, time=T) and then schedule exactly one tick event whose time is that same T, with T produced by ThisTick (TickNow) or NextTick (TickLater) of the current time and the secondary flag copied; " +
-			"tick events are constructed only inside TickScheduler; TickingComponent.Handle calls Tick exactly once and re-ticks (TickLater) on every path where it reported progress; receive and port-free notifications lead to TickLater; (clock-grid) ThisTick, NextTick, NCyclesLater and NoEarlierThan return a value built as a multiple of the receiver's Period() (divisibility abstract interpretation: k*period, sums/differences of multiples, x - x%period, sibling calls), so every tick lands on one grid.",
+			"tick events are constructed only inside TickScheduler; TickingComponent.Handle calls Tick exactly once and re-ticks (TickLater) on every path where it reported progress; receive and port-free notifications lead to TickLater; (clock-grid) ThisTick, NextTick, NCyclesLater and NoEarlierThan return a value built as a multiple of the receiver's Period() (divisibility abstract interpretation: k*period, sums/differences of multiples, x - x%period, sibling calls), so every tick lands on one grid. (snapshot-verbatim) TickScheduler.snapshot returns the guard fields exactly as stored.",
 		NotDecided:  "which multiple ThisTick/NextTick pick (rounding direction; C42, not applicable); that at most one tick runs per instant also depends on the guard being consumed (see C09's finding).",
 		Assumptions: []string{"CurrentTime/ThisTick/NextTick are state-reading"},
 	}, runC12)
@@ -166,6 +166,7 @@ func runC12(c *Ctx) {
 	tickGuardTables(c, "tick-guard-table")
 	tickingHandleTable(c, "progress-retick")
 	clockGridRule(c, "clock-grid")
+	snapshotVerbatimRule(c, "snapshot-verbatim")
 	// the dedup guard may be dropped only with respect to the recorded tick time
 	if hf, nf := p.Field("modeling", "TickScheduler", "hasScheduledTick"), p.Field("modeling", "TickScheduler", "nextTickTime"); hf == nil || nf == nil {
 		c.Unknown("guard-clear", "modeling.TickScheduler.hasScheduledTick", 0, "anchor not found")
